@@ -13,7 +13,7 @@ import re
 import traceback
 
 MAX_VIOLATIONS = 25       # per shard; the first ones are what matters
-MAX_SAMPLES = 4           # per shard (parent keeps <= 10)
+MAX_SAMPLES = 6           # per shard (parent keeps <= 10)
 
 
 class HarnessError(Exception):
@@ -57,10 +57,12 @@ class Collector:
         self.events.append(what)
 
     def sample(self, obj, force=False):
+        """Keep the 1st, 4th, 16th, 64th, ... offered case (log-spaced: small and late/large ones)."""
         self._sample_tick += 1
-        if len(self.samples) < MAX_SAMPLES and (
-                force or self._sample_tick % self.sample_every == 0):
-            self.samples.append(jsonable(obj))
+        t = self._sample_tick
+        if force or (t & (t - 1) == 0 and bin(t).count('0') % 2 == 1):
+            if len(self.samples) < MAX_SAMPLES:
+                self.samples.append(jsonable(obj))
 
     # -- verdicts -----------------------------------------------------------
     def violation(self, monitor, mechanism, expected=None, observed=None,
